@@ -3,6 +3,7 @@
 //   clockdrv sc          scripts on stdin against a SystemClock with injected clockMillis():
 //        S <id> <base> <phase>      new clock; counter starts at base + phase (base = multiple of 65536)
 //        A <d> | G | K | T <v|inv>  advance counter / getNow() / keepAlive() / setNow(v)
+//        U <v|inv> | F <v|inv>      setup() with the backup clock reporting v / forceSync() with the reference clock reporting v (S ... ref)
 //   clockdrv scloop      the same scripts on a SystemClockLoop without reference clock, K = loop()
 //        E                          end: prints {"id":..,"steps":[[epoch,prev,init,last,bw,bv,reading],..]}
 //   clockdrv scl         scripts against a SystemClockLoop:
@@ -79,14 +80,16 @@ static long parse_v(const char* s) { return !strcmp(s, "inv") ? INV : atol(s); }
 template <typename C>
 static int run_sc() {
   char line[256];
-  RecClock* backup = nullptr; C* c = nullptr;
+  RecClock* backup = nullptr; RecClock* ref = nullptr; C* c = nullptr;
   std::string out;
   while (fgets(line, sizeof line, stdin)) {
-    char a[64], b[64], d[64];
+    char a[64], b[64], d[64], kind[64];
     if (line[0] == 'S') {
-      sscanf(line, "S %63s %63s %63s", a, b, d);
-      delete c; delete backup;
-      backup = new RecClock(); c = new C(nullptr, backup);
+      strcpy(kind, "plain");
+      sscanf(line, "S %63s %63s %63s %63s", a, b, d, kind);
+      delete c; delete backup; delete ref;
+      // kind "ref": the clock also has a reference clock (needed by forceSync())
+      backup = new RecClock(); ref = new RecClock(); c = new C(!strcmp(kind, "ref") ? ref : nullptr, backup);
       c->fake = strtoul(b, nullptr, 10) + strtoul(d, nullptr, 10);
       out = std::string("{\"id\":\"") + a + "\",\"steps\":[";
     } else if (line[0] == 'E') {
@@ -98,6 +101,10 @@ static int run_sc() {
       else if (line[0] == 'G') { reading = c->getNow(); isget = true; }
       else if (line[0] == 'K') { c->poll(); }
       else if (line[0] == 'T') { sscanf(line, "T %63s", a); c->setNow((acetime_t) parse_v(a)); }
+      // the two other documented ways of setting the clock: setup() takes the value from the backup clock, forceSync() from
+      // the reference clock
+      else if (line[0] == 'U') { sscanf(line, "U %63s", a); backup->value = (acetime_t) parse_v(a); c->setup(); }
+      else if (line[0] == 'F') { sscanf(line, "F %63s", a); ref->value = (acetime_t) parse_v(a); c->forceSync(); }
       out += "[" + num(c->epoch()) + "," + num(c->prev()) + "," + (c->isInit() ? "1" : "0") + "," + num(c->last()) + ","
           + num(backup->sets) + "," + num(backup->lastSet) + "," + (isget ? num(reading) : std::string("null")) + "," + num(backup->requests) + "],";   // (a backup clock is written to, never asked for the time)
     }
